@@ -406,4 +406,250 @@ theorem specR_bound : ∀ (tri : List (Nat × Nat × Nat)) (cq dq : Nat), TriOk 
     · obtain ⟨h1, h2⟩ := ih (cq / d) (dq / d) hrest hhi h' hm'
       exact ⟨key _ _ htd h1, key _ _ htd h2⟩
 
+/-! ### the links of a route, in closed form -/
+
+/-- the torus link taken by a hop: going right, the UP half of the link declared by the current node towards the next
+one (`<zone>_link_from_<cur>_to_<next>`); going left, the DOWN half of the link declared by the NEXT node towards the
+current one (`<zone>_link_from_<next>_to_<cur>`) -/
+def hopCable (h : Hop) : TLink := if h.up then TLink.cable h.cur h.next true else TLink.cable h.next h.cur false
+
+/-- what one iteration of the `while` pushes: the limiter of the current node (if limiters are configured), then the cable -/
+def hopSegment (lim : Bool) (h : Hop) : List TLink := (if lim then [TLink.limiter h.cur] else []) ++ [hopCable h]
+
+/-- the whole link list of a route with hops `hs`: the segments, then the limiter of the destination -/
+def linksOfHops (lim : Bool) (dst : Nat) (hs : List Hop) : List TLink :=
+  hs.flatMap (hopSegment lim) ++ (if lim then [TLink.limiter dst] else [])
+
+theorem linksOfHops_cons (lim : Bool) (dst : Nat) (h : Hop) (hs : List Hop) :
+    linksOfHops lim dst (h :: hs) = hopSegment lim h ++ linksOfHops lim dst hs := by
+  simp [linksOfHops, List.flatMap_cons, List.append_assoc]
+
+theorem uplink_of_at {α : Type} (es : Entries α) (pos : Nat) (v : α × α) (h : Entries.at es pos = some v) :
+    Entries.uplinkFrom es pos = some v.1 := by simp [Entries.uplinkFrom, h]
+theorem downlink_of_at {α : Type} (es : Entries α) (pos : Nat) (v : α × α) (h : Entries.at es pos = some v) :
+    Entries.downlinkTo es pos = some v.2 := by simp [Entries.downlinkTo, h]
+
+/-- the pushes of one `while` iteration, read from the sealed table -/
+theorem hopLinks_sealed (t : Torus) (dst : Nat) (tri : List (Nat × Nat × Nat)) (hpos : ∀ x ∈ tri, 0 < x.1)
+    (hdims : triDims tri = t.dims) (h : Hop) (hc : h.cur < t.tot) (hn : h.next < t.tot)
+    (hscan : scan h.cur dst 0 1 tri = some h) :
+    hopLinks (finalState t) (sealedEntries t) h = some (hopSegment t.lim h) := by
+  have hj : h.dim < t.dims.length := by
+    have := (scan_facts _ _ _ _ _ _ hscan).2.2
+    rw [← hdims, triDims, List.length_map]; omega
+  have hl : (if h.up then Entries.uplinkFrom (sealedEntries t) ((finalState t).nodePosLbLim h.cur + h.dim)
+      else Entries.downlinkTo (sealedEntries t) ((finalState t).nodePosLbLim h.next + h.dim)) = some (hopCable h) := by
+    cases hup : h.up
+    · have h1 := scan_down_link h.cur dst ((finalState t).nodePosLbLim h.next) tri 0 1 h hpos (by omega) hscan hup
+      rw [hdims] at h1
+      have h2 := lookup_cable t h.next h.dim _ hn hj h1
+      simp only [Bool.false_eq_true, if_false, hopCable, hup]
+      exact downlink_of_at _ _ _ h2
+    · have h1 := scan_up_link h.cur dst ((finalState t).nodePosLbLim h.cur) tri 0 1 h hpos hscan hup
+      rw [hdims] at h1
+      have h2 := lookup_cable t h.cur h.dim _ hc hj h1
+      simp only [if_true, hopCable, hup]
+      exact uplink_of_at _ _ _ h2
+  unfold hopLinks
+  simp only [hl]
+  have hfl : (finalState t).hasLim = t.lim := rfl
+  rw [hfl]
+  cases hlim : t.lim
+  · simp [optCons, hopSegment]
+  · have := uplink_of_at _ _ _ (lookup_limiter t h.cur hc hlim)
+    simp [this, optCons, hopSegment]
+
+/-- **`renderHops` on the sealed table is the closed form** -/
+theorem render_sealed (t : Torus) (dst : Nat) (tri : List (Nat × Nat × Nat)) (hpos : ∀ x ∈ tri, 0 < x.1)
+    (hdims : triDims tri = t.dims) (hd : dst < t.tot) : ∀ hs : List Hop,
+    (∀ h ∈ hs, h.cur < t.tot ∧ h.next < t.tot ∧ scan h.cur dst 0 1 tri = some h) →
+    renderHops (finalState t) (sealedEntries t) dst hs = some (linksOfHops t.lim dst hs) := by
+  intro hs
+  induction hs with
+  | nil =>
+    intro _
+    have hfl : (finalState t).hasLim = t.lim := rfl
+    simp only [renderHops, hfl]
+    cases hlim : t.lim
+    · simp [linksOfHops]
+    · have := downlink_of_at _ _ _ (lookup_limiter t dst hd hlim)
+      simp [this, optCons, linksOfHops]
+  | cons h hs ih =>
+    intro hall
+    obtain ⟨h1, h2, h3⟩ := hall h (by simp)
+    rw [renderHops, hopLinks_sealed t dst tri hpos hdims h h1 h2 h3, ih (fun x hx => hall x (by simp [hx])),
+      linksOfHops_cons]
+
+/-- the `while` loop computes the closed walk (same as `torus_hops_spec`, on the unfolded definitions) -/
+theorem hops_eq_specR (t : Torus) (hwf : ∀ d ∈ t.dims, 0 < d) (src dst : Nat) (hs : src < t.tot) (hd : dst < t.tot) :
+    t.hops src dst = some (specR (zip3 t.dims (coordsFrom src 1 t.dims) (coordsFrom dst 1 t.dims)) src) := by
+  have := tri_props src dst t.dims 1 hwf
+  simp only [Nat.div_one] at this
+  obtain ⟨h1, _, h3, h4, _⟩ := this
+  unfold Torus.hops
+  rw [hopsLoop_eq_hopsR dst _ h4]
+  apply hopsR_spec _ _ _ _ h1 (by rw [h3]; exact hs) (by rw [h3]; exact hd)
+  have := needed_lt_prod _ src dst h1
+  rw [h3] at this; unfold Torus.tot at *; omega
+
+/-- **the links of `get_local_route`**, for every shape, every loopback/limiter configuration and every pair that is not
+answered by the loopback shortcut -/
+theorem route_links (t : Torus) (hwf : ∀ d ∈ t.dims, 0 < d) (src dst : Nat) (hs : src < t.tot) (hd : dst < t.tot)
+    (hnl : ¬ (src = dst ∧ t.lb = true)) :
+    t.route src dst
+      = some (linksOfHops t.lim dst (specR (zip3 t.dims (coordsFrom src 1 t.dims) (coordsFrom dst 1 t.dims)) src)) := by
+  have htot : 0 < t.tot := prod_pos _ hwf
+  have hh := hops_eq_specR t hwf src dst hs hd
+  have htri := tri_props src dst t.dims 1 hwf
+  simp only [Nat.div_one] at htri
+  obtain ⟨h1, _, h3, h4, h5⟩ := htri
+  unfold Torus.route
+  rw [seal_eq t htot]
+  simp only [Torus.routeWith]
+  have hfl : (finalState t).hasLb = t.lb := rfl
+  rw [hfl, if_neg hnl, hh]
+  simp only
+  apply render_sealed t dst _ h4 h5 hd
+  intro h hm
+  have hb := specR_bound _ src dst h1 (by rw [h3]; exact hs) h hm
+  rw [h3] at hb
+  refine ⟨hb.1, hb.2, ?_⟩
+  unfold Torus.hops at hh
+  exact hopsLoop_mem_scan dst _ _ _ _ hh h hm
+
+/-- **loopback shortcut**: `src = dst` with a loopback callback is answered by the loopback link of `src` alone -/
+theorem route_loopback (t : Torus) (hwf : ∀ d ∈ t.dims, 0 < d) (src : Nat) (hs : src < t.tot) (hlb : t.lb = true) :
+    t.route src src = some [TLink.loopback src] := by
+  have htot : 0 < t.tot := prod_pos _ hwf
+  unfold Torus.route
+  rw [seal_eq t htot]
+  simp only [Torus.routeWith]
+  have hfl : (finalState t).hasLb = t.lb := rfl
+  rw [hfl, if_pos ⟨trivial, hlb⟩, uplink_of_at _ _ _ (lookup_loopback t src hs hlb)]
+  rfl
+
+theorem dist_self (d : Nat) (r : Bool) (x : Nat) : dist d r x x = 0 := by
+  unfold dist distR distL; cases r <;> simp
+
+/-- no hop from a node to itself -/
+theorem specR_self : ∀ (tri : List (Nat × Nat × Nat)) (cq : Nat), TriOk cq tri → specR tri cq = [] := by
+  intro tri
+  induction tri with
+  | nil => intro cq _; rfl
+  | cons x rest ih =>
+    obtain ⟨d, m, t⟩ := x
+    intro cq hok
+    obtain ⟨_, ht, hrest⟩ := hok
+    simp only [specR, ← ht, dist_self, ringWalk, ih (cq / d) hrest, List.map_nil, List.append_nil]
+
+/-! ### reading a link list as a walk -/
+
+/-- traversing link `l` from node `a`: the node reached, `none` when `l` is not a link that leaves `a` (the UP half of a
+link declared by `a`, the DOWN half of a link declared towards `a`, or `a`'s own limiter, which stays on `a`) -/
+def linkStep (a : Nat) : TLink → Option Nat
+  | .cable x y true => if x = a then some y else none
+  | .cable x y false => if y = a then some x else none
+  | .limiter i => if i = a then some a else none
+  | .loopback _ => none
+
+def linkWalk : Nat → List TLink → Option Nat
+  | a, [] => some a
+  | a, l :: ls => (linkStep a l).bind (fun a' => linkWalk a' ls)
+
+theorem linkWalk_append : ∀ (l1 l2 : List TLink) (a : Nat),
+    linkWalk a (l1 ++ l2) = (linkWalk a l1).bind (fun b => linkWalk b l2) := by
+  intro l1
+  induction l1 with
+  | nil => intro l2 a; rfl
+  | cons l ls ih =>
+    intro l2 a
+    simp only [List.cons_append, linkWalk]
+    cases linkStep a l with
+    | none => rfl
+    | some a' => simp [ih]
+
+theorem linkStep_hopCable (h : Hop) : linkStep h.cur (hopCable h) = some h.next := by
+  unfold hopCable; cases h.up <;> simp [linkStep]
+
+theorem linkStep_limiter (a : Nat) : linkStep a (TLink.limiter a) = some a := by simp [linkStep]
+
+theorem linkWalk_segment (lim : Bool) (h : Hop) : linkWalk h.cur (hopSegment lim h) = some h.next := by
+  cases lim <;> simp [hopSegment, linkWalk, linkStep_limiter, linkStep_hopCable]
+
+/-- a chain of hops renders to a link list that walks from the source to the destination, every link leaving the node
+the walk is on, every limiter being that node's -/
+theorem linkWalk_hops (lim : Bool) : ∀ (hs : List Hop) (a b : Nat), Chain a hs b →
+    linkWalk a (linksOfHops lim b hs) = some b := by
+  intro hs
+  induction hs with
+  | nil =>
+    intro a b hc
+    simp only [Chain] at hc; subst hc
+    cases lim <;> simp [linksOfHops, linkWalk, linkStep]
+  | cons h hs ih =>
+    intro a b hc
+    obtain ⟨h1, h2⟩ := hc
+    rw [linksOfHops_cons, linkWalk_append, ← h1, linkWalk_segment]
+    exact ih _ _ h2
+
+def TLink.isCable : TLink → Bool
+  | .cable _ _ _ => true
+  | _ => false
+def TLink.isLimiter : TLink → Bool
+  | .limiter _ => true
+  | _ => false
+def TLink.isLoopback : TLink → Bool
+  | .loopback _ => true
+  | _ => false
+
+theorem isCable_limiter (i : Nat) : (TLink.limiter i).isCable = false := rfl
+theorem isLimiter_limiter (i : Nat) : (TLink.limiter i).isLimiter = true := rfl
+theorem isLoopback_limiter (i : Nat) : (TLink.limiter i).isLoopback = false := rfl
+
+theorem hopCable_isCable (h : Hop) : (hopCable h).isCable = true := by
+  unfold hopCable; cases h.up <;> rfl
+theorem hopCable_isLimiter (h : Hop) : (hopCable h).isLimiter = false := by
+  unfold hopCable; cases h.up <;> rfl
+theorem hopCable_isLoopback (h : Hop) : (hopCable h).isLoopback = false := by
+  unfold hopCable; cases h.up <;> rfl
+
+/-- the cable links of a route, in order, are the links of its hops -/
+theorem linksOfHops_cables (lim : Bool) (dst : Nat) : ∀ hs : List Hop,
+    (linksOfHops lim dst hs).filter TLink.isCable = hs.map hopCable := by
+  intro hs
+  induction hs with
+  | nil => cases lim <;> simp [linksOfHops, isCable_limiter]
+  | cons h hs ih =>
+    rw [linksOfHops_cons, List.filter_append, ih]
+    cases lim <;> simp [hopSegment, hopCable_isCable, isCable_limiter]
+
+/-- the limiters of a route, in order: the current node's before every hop, the destination's at the end -/
+theorem linksOfHops_limiters (lim : Bool) (dst : Nat) : ∀ hs : List Hop,
+    (linksOfHops lim dst hs).filter TLink.isLimiter
+      = if lim then hs.map (fun h => TLink.limiter h.cur) ++ [TLink.limiter dst] else [] := by
+  intro hs
+  induction hs with
+  | nil => cases lim <;> simp [linksOfHops, isLimiter_limiter]
+  | cons h hs ih =>
+    rw [linksOfHops_cons, List.filter_append, ih]
+    cases lim <;> simp [hopSegment, List.filter_cons, hopCable_isLimiter, isLimiter_limiter]
+
+theorem linksOfHops_no_loopback (lim : Bool) (dst : Nat) : ∀ hs : List Hop,
+    (linksOfHops lim dst hs).filter TLink.isLoopback = [] := by
+  intro hs
+  induction hs with
+  | nil => cases lim <;> simp [linksOfHops, isLoopback_limiter]
+  | cons h hs ih =>
+    rw [linksOfHops_cons, List.filter_append, ih]
+    cases lim <;> simp [hopSegment, hopCable_isLoopback, isLoopback_limiter]
+
+theorem linksOfHops_length (lim : Bool) (dst : Nat) : ∀ hs : List Hop,
+    (linksOfHops lim dst hs).length = if lim then 2 * hs.length + 1 else hs.length := by
+  intro hs
+  induction hs with
+  | nil => cases lim <;> simp [linksOfHops]
+  | cons h hs ih =>
+    rw [linksOfHops_cons, List.length_append, ih]
+    cases lim <;> simp [hopSegment] <;> omega
+
 end SgVerif.C26
